@@ -76,8 +76,12 @@ class Sandbox:
     """A scratch directory on tmpfs plus a memento Environment with one or more clusters.
     kinds: 'memory', 'fs', 'fs+meta' (separate metadata path), 'fs+cache:<mb>', 'null'."""
 
-    def __init__(self, kinds=None, clusters=None, runner=None):
-        self.root = tempfile.mkdtemp(prefix="vp-%d-" % os.getpid(), dir=SHM)
+    def __init__(self, kinds=None, clusters=None, runner=None, root=None):
+        if root is not None:
+            os.makedirs(root, exist_ok=True)
+            self.root = root
+        else:
+            self.root = tempfile.mkdtemp(prefix="vp-%d-" % os.getpid(), dir=SHM)
         self.prev_env = _cfg.environment
         self.registry = snapshot_registry()
         self.uuid_orig = None
